@@ -443,8 +443,8 @@ func (f *indexFetcher) newPrefixBasedMatchIteratorFromConditions(
 			// if the field where we interrupt building of prefix is JSON, we still want to make sure
 			// that the JSON path is included in the key
 			if len(c.jsonPath) > 0 {
-				jsonVal, _ := fieldConditions[i].val.JSON()
-				keyFieldValues = append(keyFieldValues, client.NewNormalJSON(client.MakeVoidJSON(jsonVal.GetPath())))
+				// the value of the condition is not always a single JSON value (_in holds a list)
+				keyFieldValues = append(keyFieldValues, client.NewNormalJSON(client.MakeVoidJSON(c.jsonPath)))
 			}
 			break
 		}
